@@ -645,7 +645,7 @@ def translate_fn(f, out):
             else:
                 joined.append(s)
         blocks[b] = joined
-    NEW_TYPES.clear(); I8SRC.clear(); P2I.clear()
+    NEW_TYPES.clear(); I8SRC.clear(); P2I.clear(); LOADSRC.clear(); GEPK.clear(); ICMPX.clear()
     for ln_ in f.body:
         m_ = re.match(r'\s*%\S+ = bitcast i8\* (%[-\w.$]+) to (%"[^"]+"|%[-\w.$]+)\*\s*(,|$)', ln_)
         if m_ and m_.group(1) not in NEW_TYPES:
@@ -666,6 +666,7 @@ def translate_fn(f, out):
     entry_label = None
     for bname, insts in blocks.items():
         code.append('%s: ;' % lab(bname))
+        ICMPX.clear()   # comparisons are only re-used inside their own block (phi variables change across blocks)
         for s in insts:
             toks = tokenize(s)
             md_ = re.search(r'!dbg (!\d+)', s)
@@ -727,6 +728,7 @@ def translate_fn(f, out):
                     setv(t, '({ char* s_ = %s; (%s)(%s); })' % (a.c, ctype(t), ' | '.join('((uint64_t)*(uint8_t*)(s_+%d) << %d)' % (i, 8 * i) for i in range(nb))))
                 else:
                     setv(t, '*(%s*)%s' % (ctype(t), a.c))
+                if dst: LOADSRC[local(dst)] = a.c
             elif op == 'store':
                 p.accept('volatile'); p.accept('atomic')
                 t = p.type(); v = operand(p, t, f); p.expect(','); pt = p.type(); a = operand(p, pt, f)
@@ -743,6 +745,9 @@ def translate_fn(f, out):
                 while p.accept(','):
                     it = p.type(); idx.append(operand(p, it, f))
                 setv(PtrT(IntT(8)), gep_expr(bt, base, idx))
+                if dst and len(idx) == 1:
+                    mk_ = re.fullmatch(r'\(\(\w+\)(\d+)ULL\)', idx[0].c)
+                    if mk_: GEPK[local(dst)] = (base.c, int(mk_.group(1)) * size_of(bt))
             elif op in ('bitcast', 'inttoptr', 'ptrtoint', 'trunc', 'zext', 'sext', 'uitofp', 'sitofp', 'fptoui', 'fptosi', 'fpext', 'fptrunc', 'addrspacecast'):
                 st = p.type(); x = operand(p, st, f); p.expect('to'); dt = p.type()
                 setv(dt, cast_expr(op, x, dt))
@@ -760,6 +765,7 @@ def translate_fn(f, out):
             elif op == 'icmp':
                 pred = p.next()[1]; t = p.type(); a = operand(p, t, f); p.expect(','); b = operand(p, t, f)
                 setv(IntT(1), icmp_expr(pred, a, b))
+                if dst: ICMPX[local(dst)] = icmp_expr(pred, a, b)
             elif op == 'fcmp':
                 pred = p.next()[1]; t = p.type(); a = operand(p, t, f); p.expect(','); b = operand(p, t, f)
                 o = {'oeq': '==', 'one': '!=', 'olt': '<', 'ole': '<=', 'ogt': '>', 'oge': '>=', 'ueq': '==', 'une': '!=', 'ult': '<', 'ule': '<=', 'ugt': '>', 'uge': '>='}[pred]
@@ -791,6 +797,8 @@ def translate_fn(f, out):
                     emit(phi_goto(bname, tgt[1:].strip('"')))
                 else:
                     t = p.type(); c = operand(p, t, f); p.expect(','); p.expect('label'); t1 = p.next()[1]; p.expect(','); p.expect('label'); t2 = p.next()[1]
+                    # branch directly on the comparison (SSA operands are unchanged): lets CBMC filter pointer value sets on `p != 0` branches
+                    if c.c in ICMPX: c = Val(ICMPX[c.c], c.t)
                     emit('if (%s) { %s } else { %s }' % (c.c, phi_goto(bname, t1[1:].strip('"')), phi_goto(bname, t2[1:].strip('"'))))
             elif op == 'switch':
                 t = p.type(); c = operand(p, t, f); p.expect(','); p.expect('label'); dflt = p.next()[1]
@@ -872,6 +880,25 @@ def translate_fn(f, out):
                     p.accept(',')
                 rest = toks[p.i:]
                 expr = call_expr(callee_name, callee, rt, args, argts, fty)
+                if callee_name is None and callee in LOADSRC:
+                    # virtual call: %vt = load obj; %slot = gep %vt, K; %fp = load %slot  ->  explicit dispatch over the functions that
+                    # occupy slot K in some vtable of the module (CBMC's own function-pointer removal would try every address-taken
+                    # function of a compatible type, and explores them recursively when it cannot fold the comparison)
+                    src_ = LOADSRC[callee]; slot_ = None
+                    if src_ in GEPK and GEPK[src_][0] in LOADSRC: slot_ = GEPK[src_][1]
+                    elif src_ in LOADSRC: slot_ = 0
+                    if slot_ is not None and slot_ % 8 == 0:
+                        cands = virtual_candidates(slot_ // 8, len([x for x in args if x is not None]), rt)
+                        if cands:
+                            av = [x.c for x in args if x is not None]
+                            isvoid = isinstance(resolve(rt), VoidT)
+                            parts = []
+                            for cn in cands:
+                                if cn == '__cxa_pure_virtual': call_ = '__cxa_pure_virtual()'
+                                else: call_ = '%s(%s)' % (cn, ', '.join(av))
+                                parts.append('if (%s == (char*)&%s) { %s%s; }' % (callee, cn, '' if isvoid or cn == '__cxa_pure_virtual' else 'r_ = ', call_))
+                            body_ = ' else '.join(parts) + ' else { __CPROVER_assert(0, "virtual call reaches a function found in that vtable slot"); __CPROVER_assume(0); }'
+                            expr = ('({ %s })' % body_) if isvoid else ('({ %s r_; %s r_; })' % (ctype(rt), body_))
                 if callee_name in ('_Znwm',) and dst is not None:
                     m_ = re.fullmatch(r'\(\(\w+\)(\d+)ULL\)', args[0].c)
                     bt_ = NEW_TYPES.get(dst)
@@ -921,6 +948,48 @@ def translate_fn(f, out):
 PHIS = {}
 I8SRC = {}
 P2I = {}
+LOADSRC = {}
+GEPK = {}
+ICMPX = {}
+VTABLES = {}   # vtable global -> [function name or None per element]
+def collect_vtables():
+    for ln in M_globals_raw:
+        m = re.match(r'@(_ZTV[\w.$]+) = ', ln)
+        if not m or ' external ' in ln.split('{')[0] and '[' not in ln: continue
+        i = ln.find('] } {')
+        if i < 0: continue
+        body = ln[i:]
+        els = []
+        depth = 0; cur = ''
+        j = body.find('] [', 4)
+        if j < 0: continue
+        k = j + 3
+        while k < len(body):
+            ch = body[k]
+            if ch in '([': depth += 1
+            if ch in ')]':
+                if depth == 0: break
+                depth -= 1
+            if ch == ',' and depth == 0:
+                els.append(cur.strip()); cur = ''
+            else: cur += ch
+            k += 1
+        if cur.strip(): els.append(cur.strip())
+        names = []
+        for e in els:
+            mm = re.search(r'@("[^"]+"|[\w.$]+)', e)
+            names.append(mangle('@' + mm.group(1)) if mm and 'null' != e.split()[-1] else None)
+        VTABLES[m.group(1)] = names
+def virtual_candidates(slot, nargs, rt):
+    out = []
+    for vt, names in VTABLES.items():
+        idx = 2 + slot
+        if idx < len(names) and names[idx] and not names[idx].startswith('_ZTI'):
+            n = M.aliases.get(names[idx], names[idx])
+            fobj = M.funcs.get(n) or M.decls.get(n)
+            if n == '__cxa_pure_virtual' or (fobj is not None and len(fobj.args) == nargs and repr(resolve(fobj.ret)) == repr(resolve(rt))):
+                if n not in out: out.append(n)
+    return out
 def leaves(t, base):
     r = resolve(t)
     if isinstance(r, StructT):
@@ -991,9 +1060,9 @@ def call_expr(name, callee, rt, args, argts, fty):
                         return '({ char* d_ = %s; char* s_ = %s; %s %s (void)0; })' % (a[0].c, a[1].c,
                             ' '.join('%s t%d_ = *(%s*)(s_+%d);' % (ctype(t), i, ctype(t), o) for i, (o, t) in enumerate(lv)),
                             ' '.join('*(%s*)(d_+%d) = t%d_;' % (ctype(t), o, i) for i, (o, t) in enumerate(lv)))
-        if name.startswith('llvm_memcpy'): return 'memcpy(%s, %s, %s)' % (a[0].c, a[1].c, a[2].c)
-        if name.startswith('llvm_memmove'): return 'memmove(%s, %s, %s)' % (a[0].c, a[1].c, a[2].c)
-        if name.startswith('llvm_memset'): return 'memset(%s, %s, %s)' % (a[0].c, a[1].c, a[2].c)
+        if name.startswith('llvm_memcpy'): return 'vp_memcpy(%s, %s, %s)' % (a[0].c, a[1].c, a[2].c)
+        if name.startswith('llvm_memmove'): return 'vp_memmove(%s, %s, %s)' % (a[0].c, a[1].c, a[2].c)
+        if name.startswith('llvm_memset'): return 'vp_memset(%s, %s, %s)' % (a[0].c, a[1].c, a[2].c)
         if name.startswith('llvm_bswap_i16'): return '__builtin_bswap16(%s)' % a[0].c
         if name.startswith('llvm_bswap_i32'): return '__builtin_bswap32(%s)' % a[0].c
         if name.startswith('llvm_bswap_i64'): return '__builtin_bswap64(%s)' % a[0].c
@@ -1031,6 +1100,8 @@ def call_expr(name, callee, rt, args, argts, fty):
             txt = msg.rstrip(b'\0').decode('latin1')
             txt = re.sub(r'[^ -~]', '?', txt).replace('\\', '/').replace('"', "'")
             return 'VP_ASSERT(%s, "%s")' % (a[0].c, txt)
+    if name in ('memcpy', 'memmove', 'memset') and len(a) == 3:
+        return 'vp_%s(%s, %s, %s)' % (name, a[0].c, a[1].c, a[2].c)
     if name in LIBC:
         return '%s(%s)' % (name, ', '.join(x.c for x in a))
     if name and (name in M.funcs or name in M.decls):
@@ -1098,6 +1169,7 @@ def main():
             r = resolve(t)
             typeinfos.append((n, len(r.fields) if isinstance(r, StructT) else 0))
         M.globals[n] = (kind, t)
+    collect_vtables()
     fbuf = []
     failed = []
     for f in M.funcs.values():
@@ -1157,6 +1229,7 @@ def main():
     out += fbuf
     out.append('void vp_run_ctors(void) { %s }' % ' '.join('%s();' % c for c in ctors if c in M.funcs))
     open(sys.argv[2], 'w').write('\n'.join(out) + '\n')
+    open(sys.argv[2] + '.funcs', 'w').write('\n'.join(M.funcs.keys()) + '\n')
     sys.stderr.write('functions: %d, globals: %d\n' % (len(M.funcs), len(M.globals)))
 
 main()
